@@ -139,6 +139,7 @@ func (h *Host) Instantiate(ctx context.Context, rt wazero.Runtime, m *wasmgen.Mo
 		f := f
 		n++
 		var fn api.GoModuleFunction
+		var gfn api.GoFunction
 		switch f.HostName {
 		case "enter":
 			fn = api.GoModuleFunc(func(ctx context.Context, mod api.Module, stack []uint64) {
@@ -185,6 +186,41 @@ func (h *Host) Instantiate(ctx context.Context, rt wazero.Runtime, m *wasmgen.Mo
 				}
 			})
 		default:
+			if len(f.HostName) > 1 && (f.HostName[len(f.HostName)-1]-'0')%3 == 1 {
+				// every third plain host function is an api.GoFunction (no module parameter: the
+				// engines call it through a different path): a pure function of its arguments,
+				// logged only in the global log since the calling instance is unknown to it
+				gfn = api.GoFunc(func(ctx context.Context, stack []uint64) {
+					acc := uint64(0x51ed270b9e3779b9)
+					var sb strings.Builder
+					sb.WriteString(f.HostName)
+					sb.WriteByte('(')
+					for i, p := range f.Sig.P {
+						v := stack[i]
+						if p == wasmgen.I32 || p == wasmgen.F32 {
+							v &= 0xffffffff
+						}
+						fmt.Fprintf(&sb, "%x,", v)
+						acc = mix(acc ^ v)
+					}
+					sb.WriteString(")->")
+					for i, r := range f.Sig.R {
+						v := mix(acc + uint64(i))
+						switch r {
+						case wasmgen.I32, wasmgen.F32:
+							v &= 0xffffffff
+						case wasmgen.ExternRef:
+							v &= 0xff
+						}
+						stack[i] = v
+						fmt.Fprintf(&sb, "%x,", v)
+					}
+					if h.Global != nil {
+						h.Global.Calls = append(h.Global.Calls, sb.String())
+					}
+				})
+				break
+			}
 			fn = api.GoModuleFunc(func(ctx context.Context, mod api.Module, stack []uint64) {
 				st := h.state(mod)
 				st.calls++
@@ -217,6 +253,10 @@ func (h *Host) Instantiate(ctx context.Context, rt wazero.Runtime, m *wasmgen.Mo
 					h.Global.Calls = append(h.Global.Calls, sb.String())
 				}
 			})
+		}
+		if fn == nil {
+			b = b.NewFunctionBuilder().WithGoFunction(gfn, f.Sig.P, f.Sig.R).Export(f.HostName)
+			continue
 		}
 		b = b.NewFunctionBuilder().WithGoModuleFunction(fn, f.Sig.P, f.Sig.R).Export(f.HostName)
 	}
